@@ -776,6 +776,11 @@ class HaltTiming(Harness):
         # one rule over two target markets: solver-chosen prices on the first at step 1 and on the second at step 2
         # (inside the first one's halt, if it fired), quotes at 300 on the first afterwards
         out.append({"L": 2, "layout": [[5, True]], "M": 2, "targets": ["M0", "M1"], "multi": True})
+        # a halt cut short by the end of its session, then solver-chosen prices again in the next session (the halt
+        # that was cut counts for the moving line)
+        out.append({"L": 2, "layout": [[2, True], [3, True]], "M": 1, "second": True, "sparse": True})
+        # the fill that may cross the line is a self-trade (one agent sells at step 1 and buys at step 2)
+        out.append({"L": 1, "layout": [[5, True]], "M": 1, "self": True})
         # trades at several prices during step 0 (the time-0 reference keeps moving), a later excursion at step 2
         out.append({"L": 1, "layout": [[3, True]], "M": 1, "step0": True})
         if tier == "thorough":
@@ -789,7 +794,7 @@ class HaltTiming(Harness):
         markets = {f"M{i}": {"class": "Market", "tickSize": 1, "marketPrice": 300} for i in range(case["M"])}
         sessions = [rn.session(i, n, True, e, maxNormalOrders=2) for i, (n, e) in enumerate(case["layout"])]
         sessions[0]["events"] = ["HALT"]
-        st = rn.base_settings(n_agents=3 if case.get("sweep") else 2, sessions=sessions, markets=markets,
+        st = rn.base_settings(n_agents=3 if case.get("sweep") else (1 if case.get("self") else 2), sessions=sessions, markets=markets,
                               extra={"HALT": {"class": "TradingHaltRule", "targetMarkets": case.get("targets", ["M0"]),
                                               "triggerChangeRate": 0.5, "haltingTimeLength": case["L"]}})
         for sd in st["simulation"]["sessions"]:
@@ -801,6 +806,11 @@ class HaltTiming(Harness):
                 "price_hi": 1000, "active_from": 1,
                 "price_by_time": {"1": "sym", "default": 300} if not case.get("second") else
                 {"1": "sym", "3": "sym", "default": 300}}
+        if case.get("sparse"):        # orders only in the two steps with solver-chosen prices
+            menu["acts_by_time"] = {"0": ["none"], "1": ["limit"], "2": ["none"], "3": ["limit"], "4": ["none"]}
+        if case.get("self"):
+            menu["per_agent"] = {"0": {"side_by_time": {"1": "S", "2": "B", "3": "S", "4": "B"}}}
+            menu["price_by_time"] = {"1": "sym", "2": "sym", "default": 300}
         if case.get("multi"):
             menu["price_by_time"] = {"1": "sym", "2": "sym", "default": 300}
             menu["market_by_time"] = {"1": 0, "2": 1, "3": 0, "4": 0}
